@@ -82,7 +82,7 @@ def text(eng, name, n, symbolic):
     return SStr(ch) if ch else ''
 
 
-def make_record(eng, i, symbolic, tricks_n, auction_n, with_dda):
+def make_record(eng, i, symbolic, tricks_n, auction_n, with_dda, scoring_sym=True):
     """returns dict of writer arguments + ghost terms"""
     from bridge_env import Bid, Card, Contract, Hands, Pair, Player, Suit, TrickHistory, Vul
     from bridge_env.data_handler.pbn_handler.writer import Scoring
@@ -141,11 +141,24 @@ def make_record(eng, i, symbolic, tricks_n, auction_n, with_dda):
     dda = None
     if with_dda:
         dda = {Player(p): {Suit(s): (SInt(iv(f'dda_{p}_{s}', 0, 13, 7)) if symbolic else (p + s) % 14) for s in range(1, 6)} for p in range(1, 5)}
+    # the scoring system: every member of the writer's enumeration (a fork per member for the symbolic record, a rotating
+    # member for the fixed ones)
+    members = list(Scoring)
+    scoring = members[(3 * i + 2) % len(members)]
+    if symbolic and scoring_sym:
+        lo, hi = 0, len(members) - 1
+        while lo < hi:                      # binary decision tree over the members
+            mid = (lo + hi) // 2
+            if eng.decide(z3.Bool(f'r{i}_scoring_le_{mid}_{lo}_{hi}')):
+                hi = mid
+            else:
+                lo = mid + 1
+        scoring = members[lo]
     args = dict(board_id=names['board_id'], west_player=names['west'], north_player=names['north'], east_player=names['east'],
-                south_player=names['south'], dealer=SEnum(Player, dealer), deal=deal, scoring=Scoring.IMP, bid_history=auction,
+                south_player=names['south'], dealer=SEnum(Player, dealer), deal=deal, scoring=scoring, bid_history=auction,
                 contract=contract, play_history=play, taken_trick_num=tricks, scores=scores, dda=dda)
     ghost = dict(dealer=dealer, vul=vul, hands=hs, passed_out=passed_out, names=names, auction=auction, tricks=tricks, scores=scores,
-                 dda=dda, play=play, **g)
+                 dda=dda, play=play, scoring=scoring, **g)
     return args, ghost
 
 
@@ -244,7 +257,8 @@ def compare_log(log, g):
         add('bid_history: entries are Bid', all(is_member(b, Bid) for b in bh))
         add('bid_history: calls in order', z3.And([zenum(a) == zenum(b) for a, b in zip(bh, g['auction'])] or [True])
             if all(is_member(b, Bid) for b in bh) else False)
-    add('score_type', str_eq(log.score_type, 'IMP'))
+    add('score_type is the text of the scoring system that was written (Scoring(text) is that member)',
+        str_eq(log.score_type, g['scoring'].value))
     sc = log.scores
     sok = isinstance(sc, dict) and set(sc) == set(Pair)
     add('scores keyed by Pair', sok)
@@ -298,7 +312,7 @@ def record_json(m, g):
         bid=None if g['bid'] is None else ev(g['bid']), status=ev(g['status']), declarer=ev(g['declarer']),
         names={k: tx(v) for k, v in g['names'].items()},
         deal={str(p): [i for i in range(52) if ev(g['hands'][p].bits[i]) is True] for p in range(1, 5)},
-        auction=[ev(zenum(b)) for b in g['auction']],
+        auction=[ev(zenum(b)) for b in g['auction']], scoring=g['scoring'].name,
         tricks=None if g['tricks'] is None else ev(zint(g['tricks'])),
         play=None if g['play'] is None else [[ev(zenum(t.attrs['leader'])), [card(c) for c in t.attrs['cards']]] for t in g['play'].attrs['_history']],
         scores=[ev(zint(v)) for v in g['scores'].values()],
